@@ -205,6 +205,26 @@ def run(ctx):
                                extra_files={'VyukovBounded_RA.tla': modv}, tmo=1500))
     jobs.append(lambda: tlc_mc(ctx, 'ra_toggle_vyukov_publish_rlx', 'VyukovBounded_RA', vb_ra, invariants=['NoDataRace', 'Conservation'], view='mcview', constraints=['MsgBound5'], workers=4,
                                expect='violation', extra_files={'VyukovBounded_RA.tla': toggle_module('VyukovBounded', tabv, {'u_pub': 'rlx'})}, tmo=1500))
+    # ---------------- Ramalhete (step binding: index words and entries exactly)
+    build(['queue_ram'])
+    keepr = lambda r: r.get('fn', '').startswith('ramalhete_queue::') and 'node::' not in r.get('fn', '')
+    tabr, a, n = step_bind(ctx, 'Ramalhete', 'queue_ram', ['ram10/nebr0/P;;push1,push2,pop;pop,push3'], QM.rq_consts(Progs='<-ProgStep', NNodes=7), pb=2, max_exec=100 if q else 2000,
+                           keep=keepr)
+    bind['Ramalhete'] = (a, n); tabs_all['Ramalhete'] = tabr
+    ctx.binding.append({'spec': 'Ramalhete', 'orders_extracted': {k: sorted(v) for k, v in tabr.items() if v}})
+    modr, _ = ord_module('Ramalhete', tabr)
+    INV_RW = ['NoDataRace', 'Conservation', 'Ownership', 'ConservedAtEnd']
+    rq_ra = QM.rq_consts(Weak=True, Ord='<-OrdX', Progs='<-ProgPP')
+    jobs.append(lambda: tlc_mc(ctx, 'ra_ramalhete', 'Ramalhete_RA', rq_ra, invariants=INV_RW, view='mcview', constraints=['MsgBound5'], workers=6, extra_files={'Ramalhete_RA.tla': modr}, tmo=1500))
+    if not q:
+        jobs.append(lambda: tlc_mc(ctx, 'ra_ramalhete_lost', 'Ramalhete_RA', dict(rq_ra, Progs='<-ProgLost'), invariants=INV_RW, view='mcview', constraints=['MsgBound5'], workers=8,
+                                   extra_files={'Ramalhete_RA.tla': modr}, tmo=2400, heap='24g'))
+    jobs.append(lambda: tlc_mc(ctx, 'ra_toggle_ramalhete_entry_cas_rlx', 'Ramalhete_RA', dict(rq_ra, Progs='<-ProgP1'), invariants=INV_RW, view='mcview', constraints=['MsgBound5'], workers=4,
+                               expect='violation', extra_files={'Ramalhete_RA.tla': toggle_module('Ramalhete', tabr, {'p_cas': 'rlx'})}, tmo=1500))
+    jobs.append(lambda: tlc_mc(ctx, 'ra_toggle_ramalhete_link_rlx', 'Ramalhete_RA', rq_ra, invariants=INV_RW, view='mcview', constraints=['MsgBound5'], workers=4,
+                               expect='violation', extra_files={'Ramalhete_RA.tla': toggle_module('Ramalhete', tabr, {'p_link': 'rlx'})}, tmo=1500))
+    jobs.append(lambda: tlc_mc(ctx, 'ra_toggle_ramalhete_take_rlx', 'Ramalhete_RA', dict(rq_ra, Progs='<-ProgP1'), invariants=INV_RW, view='mcview', constraints=['MsgBound5'], workers=4,
+                               expect='violation', extra_files={'Ramalhete_RA.tla': toggle_module('Ramalhete', tabr, {'q_ldacq': 'rlx', 'q_xchg': 'rlx'})}, tmo=1500))
     # ---------------- kernels without step binding yet: hazard pointer publish / scan, michael-scott queue (orders as read from the code)
     hp_ra = RM.hp_consts(Weak=True, MaxOps=1, NNodes=2, K=1, NG=1)
     jobs.append(lambda: tlc_mc(ctx, 'ra_hazardpointer', 'HazardPointer', hp_ra, invariants=['Safe', 'NoDataRace'], view='mcview', constraints=['MsgBound5'], workers=6, tmo=1500))
@@ -234,7 +254,7 @@ def run(ctx):
     ctx.samples.append({'extracted_orders_chaselev': {k: sorted(v) for k, v in tab.items() if v}})
     return finish(ctx,
                   'S: the real code is run with one record per atomic access / fence; each execution is validated action by action against the impl spec '
-                  '(ChaseLev, Seqlock, LeftRight, VyukovBounded) and the memory-order table of the spec is extracted from those records; M: the impl specs '
+                  '(ChaseLev, Seqlock, LeftRight, VyukovBounded, Ramalhete) and the memory-order table of the spec is extracted from those records; M: the impl specs '
                   '(+ HazardPointer and MSQueue with orders as written in the code) are model-checked under the view-based release/acquire + fences + seq_cst '
                   'model of common/Mem.tla with the extracted table: NoDataRace on plain payloads and the memory-model independent safety part of each property '
                   '(conservation, no torn value, no access to reclaimed memory); weakening a required order or dropping a fence must produce a counterexample',
